@@ -10,7 +10,9 @@ CASE_TYPE = "case"
 SHARD = 3
 RULE = ("a generic (hence minimal) curve on an exhaustive shape is refined by the implementation through a random history "
         "of 1-4 knot insertions (new knots, existing knots, repeated) and degree elevations, then clean / knot_clean "
-        "(all or named knots) / degree_clean is called twice; non-trivial = degree >= 1 and a history of >= 2 steps")
+        "(all or named knots) / degree_clean is called twice; the same histories with one refined control point moved by "
+        "1e-5 and an explicit tolerance (1e-15: nothing may be removed; default; 1e-2); non-trivial = degree >= 1 and a "
+        "history of >= 2 steps")
 
 
 def generic_points(rnd, n, dim):
@@ -68,7 +70,15 @@ def gen(tier, seed):
                              ["kclean", fsl(rnd.sample(inner, max(1, len(inner) // 2)))] if inner else ["clean"]])
             cases.append({"U": fsl(U), "p": p, "kind": v["kind"], "mults": v["mults"], "scalar": dim == 1,
                           "P": pts_json(generic_points(rnd, n, dim)), "hist": hist, "op": op, "raised": raised > 0})
-    return cases
+    # ALMOST removable: after the history one refined control point is moved by 1e-5 (removal errors of about 1e-12 .. 1e-10),
+    # and the operation is called with an explicit tolerance: 1e-15 must refuse everything (curve untouched, exactly),
+    # the default and a generous one may accept - never beyond what the tolerance allows
+    near = []
+    for c in cases:
+        if c["p"] >= 1 and not c.get("pert") and rnd.random() < (0.5 if tier == "quick" else 0.7):
+            tol = rnd.choice(["1/1000000000000000", "1/1000000000000000", None, "1/100"])
+            near.append(dict(c, pert={"i": rnd.randint(0, 50), "delta": "1/100000"}, tol=tol))
+    return cases + near
 
 
 def impl(case):
@@ -81,18 +91,30 @@ def impl(case):
             curve.knot_insert(nums(h[1]))
         else:
             curve.degree_increase(h[1])
+    if case.get("pert"):
+        import numpy as np
+        from implib import num
+        pts = list(curve.ctrlpoints)
+        i = case["pert"]["i"] % len(pts)
+        d = num(case["pert"]["delta"])
+        pts[i] = pts[i] + d if case["scalar"] else pts[i] + np.array([d] + [0] * (len(pts[i]) - 1), dtype=object)
+        curve.ctrlpoints = pts
     before = curve_state(curve)
     op = case["op"]
+    kw = {}
+    if case.get("tol") is not None:
+        from implib import num
+        kw = {"tolerance": num(case["tol"])}
 
     def run():
         if op[0] == "clean":
-            curve.clean()
+            curve.clean(**kw)
         elif op[0] == "dclean":
-            curve.degree_clean()
+            curve.degree_clean(**kw)
         elif op[1] is None:
-            curve.knot_clean()
+            curve.knot_clean(**kw)
         else:
-            curve.knot_clean(nums(op[1]))
+            curve.knot_clean(nums(op[1]), **kw)
     r = capture(run)
     after = curve_state(curve)
     capture(run)
@@ -109,12 +131,13 @@ def emit(case, out):
     cop = {"clean": "OClean", "dclean": "ODegreeClean"}.get(op[0]) or f"(OKnotClean {copt(op[1], cql)})"
     start = out["start"] if not out.get("_floats") else dict(out["start"], U=[])
     return ctuple(cocurve(start), cocurve(out["before"]), cop, "true" if case["raised"] else "false",
+                  "true" if case.get("pert") else "false", copt(case.get("tol"), cq),
                   cres(out["r"], lambda _: "tt"), cocurve(out["after"]), cocurve(out["after2"]))
 
 
 def describe(case):
     return {"degree": case["p"], "kind": case["kind"], "op": case["op"][0], "history": len(case["hist"]),
-            "raised": case["raised"]}
+            "raised": case["raised"], "perturbed": bool(case.get("pert")), "tolerance": case.get("tol") or "default"}
 
 
 def nontrivial(case):
